@@ -97,6 +97,9 @@ def observe(m, spec, seed):
         text = format(m, spec)
         random.seed(seed)
         joined, order2 = m.__format__(spec, _return_order=True)
+        # random weights are distinct: the order in which they sort the atoms is the observed one (the bond-order component of the
+        # children key never decides in this mode), so the model gets the written position as weight
+        w = {n: i for i, n in enumerate(order)}
     else:
         wf = m._smiles_order('!s' not in spec)
         w = {n: wf(n) for n in m._atoms}
@@ -400,7 +403,7 @@ def corr_writer(ck, mols):
                 api_ok = False
                 ck.unchecked('entry points of the writer disagree (_smiles / __format__ / format / smiles_atoms_order)',
                              f'{name} spec={spec!r}: {ob}', [name])
-            wkey = 'r' if 'r' in spec else ('n' if '!s' in spec else 's')
+            wkey = f'r{j}' if 'r' in spec else ('n' if '!s' in spec else 's')    # random mode: one weight table per case
             if wkey not in wdone:
                 wdone[wkey] = f'w{i}{wkey}'
                 md.append(f'Definition w{i}{wkey} : list (Z * Z) := {zmap_term(ob["w"])}.')
